@@ -12,17 +12,21 @@ MCBufs2     == <<[s |-> 0, n |-> 2, ctx |-> 1], [s |-> 2, n |-> 2, ctx |-> 2], [
 MCRanges    == {<<0, 1>>, <<1, 1>>, <<1, 2>>, <<0, 4>>, <<1, 4>>, <<3, 3>>, <<2, 2>>, <<0, 6>>, <<4, 2>>, <<5, 1>>, <<2, 3>>}
 \* (zero-length copies are exercised by MC_MemCopy_empty.cfg and the `zero-length' histories)
 MCKWrites   == {{1}, {2, 3}, {5}, {0, 1}}
+MCRangesK   == {<<4, 2>>, <<2, 2>>, <<0, 1>>, <<5, 1>>, <<1, 1>>, <<2, 4>>}
+MCKWritesK  == {{2, 3}, {2}}
 
 SInit == Init /\ act = [a |-> "Init"]
 SNext ==
-  \/ \E c \in Ctxs, g \in GPUs, w \in KWrites : StartKern(c, g, w) /\ act' = [a |-> "Kern", c |-> c, g |-> g, w |-> w]
-  \/ \E k \in {"h2d", "d2h"}, c \in Ctxs, r \in Ranges :
-        StartCopy(k, c, r[1], r[2]) /\ act' = [a |-> "Copy", k |-> k, c |-> c, va |-> r[1], n |-> r[2]]
+  \/ \E q \in Queues, c \in Ctxs, g \in GPUs, w \in KWrites :
+        StartKern(q, c, g, w) /\ act' = [a |-> "Kern", q |-> q, c |-> c, g |-> g, w |-> w]
+  \/ \E q \in Queues, k \in {"h2d", "d2h"}, c \in Ctxs, r \in Ranges :
+        StartCopy(q, k, c, r[1], r[2]) /\ act' = [a |-> "Copy", q |-> q, k |-> k, c |-> c, va |-> r[1], n |-> r[2]]
   \/ Alloc /\ act' = [a |-> "Alloc"]
   \/ Release /\ act' = [a |-> "Release"]
-  \/ CompleteEmpty /\ act' = [a |-> "CompleteEmpty"]
+  \/ \E q \in Queues : CompleteEmpty(q) /\ act' = [a |-> "CompleteEmpty"]
   \/ DrvSend /\ act' = [a |-> "DrvSend"]
-  \/ \E g \in GPUs : GPUHandle(g) /\ act' = [a |-> "Handle", g |-> g]
+  \/ \E g \in GPUs : GPUHandle(g) /\ act' = [a |-> "Handle", g |-> g, k |-> Head(chan[g]).k]
+  \/ \E g \in GPUs : KernelFinish(g) /\ act' = [a |-> "KFinish", g |-> g]
   \/ \E g \in GPUs : DrvTake(g) /\ act' = [a |-> "Take", g |-> g]
   \/ \E p \in PAddr : Evict(p) /\ act' = [a |-> "Evict"]
 SSpec == SInit /\ [][SNext]_<<vars, act>>
